@@ -19,7 +19,7 @@ func init() {
 	register(&Rule{ID: "C10.CAP", Min: 1, Doc: "goroutine bodies capture no loop-header variable", Run: runC10Cap})
 	register(&Rule{ID: "C10.INST", Min: 15, Doc: "rule instances are created per file inside check and never stored in shared state", Run: runC10Inst})
 	register(&Rule{ID: "C10.PREFIX", Min: 2, Doc: "directory containment is never decided by a bare strings.HasPrefix on the project root", Run: runC10Prefix})
-	register(&Rule{ID: "C10.SIB", Min: 3, Doc: "the caches handed to check belong to the project handed to check", Run: runC10Sib})
+	register(&Rule{ID: "C10.SIB", Min: 5, Doc: "the caches handed to check belong to the project handed to check and read files under that project's root only", Run: runC10Sib})
 }
 
 // concurrentRegion: functions reachable from (*Linter).check and from closures passed to errgroup.Go in LintFiles.
@@ -308,7 +308,12 @@ func runC10Imm(c *Ctx) {
 				return
 			}
 			nsites++
-			if s := sharedOrigin(p, target, 0); s != "" {
+			s := sharedOrigin(p, target, 0)
+			if s == "" {
+				// the written container or object is reached through a shared one (x.f[k] = v with x from a table)
+				s = sharedHolder(p, target)
+			}
+			if s != "" {
 				k := FuncName(fn) + "|" + what
 				occ[k]++
 				c.bad(fmt.Sprintf("%s#%d", k, occ[k]), in.Pos(), "mutates data that comes from "+s+": the built-in tables and the configuration are shared by all files of a run (data race, and later files see the modification)")
@@ -971,6 +976,7 @@ func runC10Sib(c *Ctx) {
 	if n == 0 {
 		c.undecided("(*Linter).check|callers", check.Pos(), "no caller found")
 	}
+	c10CacheReadsOwnRepo(c)
 }
 
 // resolveCapture maps a free variable of a closure to the value bound at its creation.
